@@ -100,6 +100,7 @@ type hdrDecl struct {
 	SvcName  string
 	Method   string
 	Path     string
+	Target   string // request target below the base path ("" = Path): path variables filled in, query string
 	// effective required headers (after method-replaces-service by name)
 	Effective []spec.Header
 	Optional  []spec.Header
@@ -185,6 +186,23 @@ func headerCatalogue(pkg string) (*spec.File, []*hdrDecl) {
 	add("order/optional-between/no-override", []spec.Header{reqd("X-One", "integer", ""), opt("X-Trace"), reqd("X-Two", "boolean", "")}, []spec.Header{opt("X-Idem"), reqd("X-Three", "string", "date")})
 	add("order/optional-first/override-optional", []spec.Header{opt("X-Trace"), reqd("X-Tenant", "integer", ""), reqd("X-Tok", "integer", "")}, []spec.Header{{Name: "X-Trace", Type: "boolean", Required: true}})
 	add("order/override-two", []spec.Header{opt("X-Trace"), reqd("X-A", "integer", ""), reqd("X-B", "integer", ""), reqd("X-C", "integer", "")}, []spec.Header{reqd("X-C", "boolean", ""), reqd("X-A", "string", "uuid")})
+	// a header that shares its name with a query parameter or a path variable of the same RPC: three
+	// parameter locations, one name; every server and the published list keep them apart
+	f.Messages = append(f.Messages, &spec.Message{Name: "HReqNames", Fields: []*spec.Field{spec.F("note", 1, spec.String), spec.F("token", 2, spec.String).Q("token"), spec.F("version", 3, spec.String), spec.F("x_tok", 4, spec.String).Q("X-Tok")}})
+	addNamed := func(label string, svc, mth []spec.Header) {
+		add(label, svc, mth)
+		d := decls[len(decls)-1]
+		s := f.Services[len(f.Services)-1]
+		d.Path = fmt.Sprintf("/h%d/{version}", n)
+		d.Target = fmt.Sprintf("/h%d/v7?token=qtok&X-Tok=qx", n)
+		s.Methods[0].In = "." + pkg + ".HReqNames"
+		s.Methods[0].HTTP.Path = d.Path
+	}
+	addNamed("same-name/header-and-query/service-level", []spec.Header{{Name: "token", Type: "string", Required: true}}, nil)
+	addNamed("same-name/header-and-query/method-level", nil, []spec.Header{{Name: "token", Type: "integer", Required: true}})
+	addNamed("same-name/header-and-query/case-variant", []spec.Header{{Name: "X-Tok", Type: "string", Format: "uuid", Required: true}}, nil)
+	addNamed("same-name/header-and-path-variable", []spec.Header{{Name: "version", Type: "integer", Required: true}}, []spec.Header{{Name: "X-Other", Type: "string"}})
+	addNamed("same-name/header-query-and-path", []spec.Header{{Name: "version", Type: "boolean", Required: true}, {Name: "token", Type: "string", Format: "email", Required: true}}, nil)
 	// many declarations on one route (sorting and merging code behaves differently beyond small sizes): n
 	// service-level headers, one of them required and re-declared by the method with another type, in
 	// ascending, descending and scattered name order, the re-declared one first, in the middle or last
@@ -507,7 +525,11 @@ func c09decl(c *Ctx, d *hdrDecl, ch, node *lab.Child, gs, ts *srv, protoText str
 			if target == "ts" {
 				base, child = ts.URL, node
 			}
-			resp, err := rawHTTP("POST", base, "/hdr"+d.Path, hdr, body)
+			target := d.Path
+			if d.Target != "" {
+				target = d.Target
+			}
+			resp, err := rawHTTP("POST", base, "/hdr"+target, hdr, body)
 			c.R.Eval(1)
 			if err != nil {
 				transportFailure(c, child, nil, caseID, err, map[string]any{"proto": protoText, "declaration": d.Label, "headers_sent": hdr})
